@@ -1511,8 +1511,162 @@ def corpus_cases():
     return [json.loads(f.read_text())["case"] for f in sorted(d.glob("*.json"))] if d.exists() else []
 
 
+def fault_sequences_stage(ctx, only=None):
+    """
+    FAULT SEQUENCES (deterministic block, every run): sources of length <= 3 over {clean event, event with a ResolverError
+    at root.x, event that CRASHES (unexpected ValueError at root.y after root.x recorded a ResolverError), the SOURCE raising
+    from __anext__}, all 84 sequences, asyncio runtime, a consumer that keeps calling `__anext__()` after an exception.
+    Correspondence: the pulls (result / raised, data, error paths, number of source pulls) against `XStream.drain`
+    (SubscribeFaults.lean; theorems `faults_do_not_leak`, `one_pull_per_item`). Direct oracle = the statement: one result
+    per surviving event, in order, each carrying only errors raised while processing ITS event (messages are tagged with
+    the event's position in the source) and equal to what a single-event subscription of that event yields.
+    """
+    import itertools
+    from py_gql import build_schema
+    from py_gql.exc import ResolverError
+    from py_gql.execution import subscribe
+    from py_gql.execution.runtime import AsyncIORuntime
+    from py_gql.lang import parse
+
+    class SourceBoom(Exception):
+        pass
+
+    KINDS = ("ok", "fail", "crash", "raise")
+
+    def make(seq):
+        schema = build_schema("type R { x: Int y: Int } type Query { a: Int } type Subscription { root: R }")
+        pulls = [0]
+
+        class Src:
+            def __init__(self):
+                self.i = 0
+
+            def __aiter__(self):
+                return self
+
+            async def __anext__(self):
+                pulls[0] += 1
+                if self.i >= len(seq):
+                    raise StopAsyncIteration
+                pos, kind = seq[self.i]
+                self.i += 1
+                if kind == "raise":
+                    raise SourceBoom("source@%d" % pos)
+                return {"root": {"pos": pos, "kind": kind}}
+
+        def res_x(root, c, info):
+            if root["kind"] in ("fail", "crash"):
+                raise ResolverError("fail@%d" % root["pos"])
+            return 10 + root["pos"]
+
+        def res_y(root, c, info):
+            if root["kind"] == "crash":
+                raise ValueError("crash@%d" % root["pos"])
+            return 20 + root["pos"]
+        schema.register_resolver("R", "x", res_x)
+        schema.register_resolver("R", "y", res_y)
+        schema.register_subscription("Subscription", "root", lambda *a, **k: Src())
+        return schema, pulls
+
+    def drive(seq):
+        loop = asyncio.new_event_loop()
+        try:
+            schema, pulls = make(seq)
+
+            async def main():
+                out = []
+                stream = await subscribe(schema, parse("subscription { root { x y } }"),
+                                         runtime=AsyncIORuntime(loop=loop, execute_blocking_functions_in_thread=False))
+                for _ in range(len(seq) + 2):
+                    try:
+                        r = await stream.__anext__()
+                    except StopAsyncIteration:
+                        out.append("stop")
+                        break
+                    except (SourceBoom, ValueError):
+                        out.append("raised")
+                        continue
+                    out.append({"data": r.data, "errors": [[str(x) for x in (e.path or [])] for e in r.errors],
+                                "messages": [e.message for e in r.errors]})
+                return out, pulls[0]
+            return loop.run_until_complete(asyncio.wait_for(main(), 20))
+        finally:
+            loop.close()
+
+    def model_item(kind):
+        def ev(xfail, with_y):
+            fs = [{"k": "x", "o": "raise" if xfail else "ok", "c": {"t": "leaf", "v": 0}}]
+            if with_y:
+                fs.append({"k": "y", "o": "ok", "c": {"t": "leaf", "v": 0}})
+            return [{"k": "root", "o": "ok", "c": {"t": "obj", "fs": fs}}]
+        if kind == "raise":
+            return {"t": "raise"}
+        if kind == "crash":
+            return {"t": "crash", "e": ev(True, False)}      # the part executed before the crash: root.x raised ResolverError
+        return {"t": "ev", "e": ev(kind == "fail", True)}
+
+    def shape(d):        # the model's leaves carry no values: compare null-ness and keys
+        if isinstance(d, dict):
+            return {k: shape(v) for k, v in d.items()}
+        return None if d is None else 0
+
+    seqs = [list(t) for n in (1, 2, 3) for t in itertools.product(KINDS, repeat=n)]
+    if only is not None:
+        seqs = [only]
+    reqs, reals = [], []
+    reported = set()
+    for kinds in seqs:
+        seq = list(enumerate(kinds))
+        try:
+            got, npulls = drive(seq)
+        except Exception as err:  # noqa
+            ctx.fail("c17:faults:internal:%s" % type(err).__name__, "fault sequence %s: %s: %s" % (kinds, type(err).__name__, err),
+                     {"probe": "fault-sequences", "only": kinds})
+            continue
+        ctx.count()
+        ctx.nontrivial(("faults",) + tuple(kinds))
+        ctx.stat("fault-sequences")
+        # direct oracle
+        expect_kinds = ["result" if k in ("ok", "fail") else "raised" for k in kinds] + ["stop"]
+        got_kinds = ["result" if isinstance(g, dict) else g for g in got]
+        bad = None
+        if got_kinds != expect_kinds:
+            bad = ("result-sequence", "consumer saw %s, expected %s" % (got_kinds, expect_kinds))
+        else:
+            for pos, (k, g) in enumerate(zip(kinds, got)):
+                if not isinstance(g, dict):
+                    continue
+                foreign = [m for m in g["messages"] if not m.endswith("@%d" % pos)]
+                if foreign:
+                    bad = ("foreign-errors", "result of event %d carries errors of another event: %s" % (pos, foreign))
+                    break
+                single, _ = drive([(pos, k)])
+                if single[0] != g:
+                    bad = ("kth-result", "result of event %d is %s, a single-event subscription of that event yields %s" % (pos, g, single[0]))
+                    break
+        if bad:
+            if bad[0] not in reported:        # sequences come shortest first: the first one of a class is minimal
+                reported.add(bad[0])
+                ctx.fail("c17:faults:%s:%s" % (bad[0], "+".join(sorted(set(kinds)))), "source %s: %s" % (kinds, bad[1]),
+                         {"probe": "fault-sequences", "only": kinds})
+            continue
+        reqs.append({"op": "faults", "items": [model_item(k) for k in kinds]})
+        reals.append((kinds, got, npulls))
+    if ctx.model_ok and reqs:
+        for (kinds, got, npulls), ans in zip(reals, ctx.driver.ask(reqs)):
+            mod = ans.get("pulls", [])
+            real = [({"data": shape(g["data"]), "errors": g["errors"]} if isinstance(g, dict) else g) for g in got if g != "stop"]
+            modc = [({"data": shape(m["data"]), "errors": [[str(x) for x in p] for p in m["errors"]]} if isinstance(m, dict) else m) for m in mod]
+            if real != modc or ans.get("source_pulls") != npulls:
+                ctx.fail("corr:faults:%s" % "+".join(sorted(set(kinds))),
+                         "fault sequence %s: real %s (%d source pulls), model %s (%s source pulls)" % (kinds, real, npulls, modc, ans.get("source_pulls")),
+                         {"probe": "fault-sequences", "only": kinds}, kind="correspondence")
+    ctx.extra["fault_sequences"] = ctx.extra.get("fault_sequences", 0) + len(seqs)
+
+
 def run(ctx):
     try:
+        fault_sequences_stage(ctx)
         cases = corpus_cases() + exhaustive_cases()
         ctx.extra["exhaustive_block_cases"] = len(cases)
         check_cases(ctx, cases)
@@ -1540,6 +1694,10 @@ def _cleanup(ctx):
 
 
 def replay(ctx, data):
+    if data.get("input", {}).get("probe") == "fault-sequences":
+        before = len(ctx.found)
+        fault_sequences_stage(ctx, only=data["input"].get("only"))
+        return len(ctx.found) == before
     case = data.get("input", {}).get("case")
     if case is None:
         return True
